@@ -137,7 +137,8 @@ def wide_muldiv(t):
         return False
     first = t["ops"][0] if t["ops"] else ""
     w = 64 if "64" in first else 32 if "32" in first else 16 if "16" in first else 8
-    return w >= 32 or (mn in ("Div", "Idiv") and w >= 16)
+    # one-operand MUL/IMUL r/m16 (DX:AX): 150-180 s, IMUL over the 420 s budget under load with symbolic operand registers
+    return w >= 32 or (mn in ("Div", "Idiv") and w >= 16) or (w == 16 and len(t["ops"]) == 1)
 
 
 def plan_l2(tier, baseline=None):
@@ -290,8 +291,9 @@ def build_l2(dst, harnesses):
 
 
 def common_hash():
-    """sha of the extracted text every L2 harness depends on"""
-    return X.sha(*[t for (_r, t) in common_texts().values()])
+    """sha of the extracted text every L2 harness depends on (blank lines dropped: the cuts are line preserving, so an
+    edit inside a cut region of e.g. memory.rs would otherwise invalidate every cached L2 result)"""
+    return X.sha(*["\n".join(l.rstrip() for l in t.split("\n") if l.strip()) for (_r, t) in common_texts().values()])
 
 
 # ------------------------------------------------------------------------------------------------ L0 crate
@@ -447,11 +449,16 @@ L3_HARNESSES = [
     ("l3_step_ret", "l3::check_step(3)", 6, "step"),
     ("l3_step_unsupported", "l3::check_step(4)", 6, "step"),
     ("l3_execute", "l3::check_execute()", 6, "step"),
-    ("l3_trace_add", "l3trace::check_add_trace()", 6, "trace"),
+    ("l3_trace_add", "l3trace::check_add_trace(true)", 6, "trace"),
+    ("l3_trace_add_first", "l3trace::check_add_trace(false)", 6, "trace"),
     ("l3_trace_render", "l3trace::check_render()", 6, "trace"),
     ("l3_sys_brk", "l3sys::check_brk()", 6, "sys"),
-    ("l3_sys_pipe", "l3sys::check_pipe()", 10, "sys"),
-    ("l3_sys_pipe_foreign_fd", "l3sys::check_pipe_foreign_fd()", 18, "sys"),
+    ("l3_sys_pipe_w3_r1_r4", "l3sys::check_pipe(3, 1, 4)", 10, "sys"),
+    ("l3_sys_pipe_w3_r2_r1", "l3sys::check_pipe(3, 2, 1)", 10, "sys"),
+    ("l3_sys_pipe_w2_r0_r2", "l3sys::check_pipe(2, 0, 2)", 10, "sys"),
+    ("l3_sys_pipe_w1_r4_r4", "l3sys::check_pipe(1, 4, 4)", 10, "sys"),
+    ("l3_sys_pipe_w0_r2_r0", "l3sys::check_pipe(0, 2, 0)", 10, "sys"),
+    ("l3_sys_pipe_foreign_fd", "l3sys::check_pipe_foreign_fd(2)", 18, "sys"),
     ("l3_hooks_before_k0", "l3hooks::check_phase(0, true)", 6, "hooks"),
     ("l3_hooks_before_k1", "l3hooks::check_phase(1, true)", 6, "hooks"),
     ("l3_hooks_before_k2", "l3hooks::check_phase(2, true)", 6, "hooks"),
@@ -562,3 +569,150 @@ pub fn main_impl() {
     toml = open(os.path.join(dst, "Cargo.toml")).read()
     toml = toml.replace("[lints.rust]", "kani = { path = \"%s\" }\n\n[[bin]]\nname = \"axplay\"\npath = \"src/bin/axplay.rs\"\n\n[lints.rust]" % os.path.join(VERIF, "replay/kani_shim"))
     write(os.path.join(dst, "Cargo.toml"), toml)
+
+
+# ------------------------------------------------------------------------------------------------ L0m bounded crate (real memory.rs)
+L0M_HARNESSES = [
+    ("l0m_read", "check_read()", 7, ["mem_read_bytes", "mem_read_executable_bytes"]),
+    ("l0m_write", "check_write()", 9, ["mem_write_bytes"]),
+    ("l0m_prot", "check_prot()", 9, ["mem_prot"]),
+    ("l0m_init", "check_init()", 9, ["mem_init_area_named", "mem_init_area"]),
+    ("l0m_resize", "check_resize()", 9, ["mem_resize_section"]),
+    # l0m_anywhere (retry loops allocating a Vec per iteration) exhausts 24 GB in CBMC: the 'anywhere' allocators are decided by
+    # the Verus unit only (unbounded); the harness body is kept in kani/harness/l0m.rs for reference
+    ("l0m_typed", "check_typed()", 22, ["mem_read_8", "mem_read_16", "mem_read_32", "mem_read_64", "mem_read_128", "mem_write_8", "mem_write_16", "mem_write_32", "mem_write_64", "mem_write_128", "internal_mem_read_128", "internal_mem_write_128"]),
+    # l0m_stack_start (C17 entry frame) exhausts 20 GB in CBMC: kept in kani/harness/l0m.rs, not run (DESIGN.md 10.8)
+]
+
+
+def l0m_texts():
+    out = {}
+    mac = X.whole_file("src/helpers/macros.rs")
+    out["helpers/macros.rs"] = ("src/helpers/macros.rs", X.select_items(mac, lambda h: re.match(r"\s*(macro_rules!|pub\(crate\) use|pub\(crate\) const)", h.strip()) is not None))
+    reg = X.whole_file("src/state/registers.rs")
+
+    def keep(h):
+        h1 = h.strip()
+        return (h1.startswith("use iced_x86") or "enum SupportedRegister" in h1 or h1.startswith("impl From<")
+                or re.match(r"impl SupportedRegister\b", h1) is not None)
+    out["state/registers.rs"] = ("src/state/registers.rs", X.select_items(reg, keep))
+    mem = X.whole_file("src/state/memory.rs")
+    # the typed accessors are proved in the L0 unit; everything else of memory.rs is kept as is
+    out["state/memory.rs"] = ("src/state/memory.rs", mem)
+    return out
+
+
+def plan_l0m():
+    hs = []
+    for (name, call, unwind, fns) in L0M_HARNESSES:
+        decl = "#[kani::proof]\n#[kani::unwind(%d)]\nfn %s() {\n    crate::state::memory::l0m_harness::%s\n}\n" % (unwind, name, call)
+        hs.append(dict(name=name, decl=decl, fns=fns))
+    return hs
+
+
+def l0m_hash():
+    parts = [t for (_r, t) in l0m_texts().values()]
+    for rel in ["model/errors.rs", "model/debug.rs", "model/verif_hooks.rs", "model/l0m/axecutor.rs", "harness/l0m.rs"]:
+        parts.append(open(os.path.join(KANI, rel)).read())
+    parts.append(CRATE_LAYOUT_VERSION)
+    return X.sha(*parts)
+
+
+def build_l0m(dst, harnesses):
+    if os.path.exists(dst):
+        shutil.rmtree(dst)
+    src = os.path.join(dst, "src")
+    extracted = {}
+    for rel_dst, (rel_repo, t) in l0m_texts().items():
+        if rel_dst == "state/memory.rs":
+            # the harness is a child module of memory.rs (it builds MemoryArea values and reads their private fields)
+            t = t + "\n#[cfg(kani)]\npub mod l0m_harness {\n" + open(os.path.join(KANI, "harness/l0m.rs")).read() + "\n}\n"
+        write(os.path.join(src, rel_dst), t)
+        extracted[rel_dst] = dict(repo=rel_repo, sha256=X.sha(t), lines=t.count("\n") + 1)
+    for a, b in [("model/errors.rs", "helpers/errors.rs"), ("model/debug.rs", "helpers/debug.rs"), ("model/verif_hooks.rs", "verif_hooks.rs"),
+                 ("model/l0m/axecutor.rs", "axecutor.rs")]:
+        copy(os.path.join(KANI, a), os.path.join(src, b))
+    write(os.path.join(src, "harness/gen_l0m.rs"), "".join(h["decl"] for h in harnesses))
+    lib = ["#![allow(warnings)]\n", FORMAT_SHADOW,
+           "pub mod verif_hooks;\n",
+           "pub mod helpers { pub mod debug; pub mod errors; pub mod macros; }\n",
+           "pub mod state { pub mod registers; pub mod memory; }\n",
+           "pub mod axecutor;\n",
+           "pub mod harness { #[cfg(kani)] pub mod gen_l0m; }\n"]
+    write(os.path.join(src, "lib.rs"), "".join(lib))
+    write(os.path.join(dst, "Cargo.toml"), CARGO_TOML.format(name="axl0m"))
+    write(os.path.join(dst, ".cargo/config.toml"), "[net]\noffline = true\n")
+    write(os.path.join(dst, "build.rs"), "fn main() {\n    println!(\"cargo:rustc-cfg=ax_verif\");\n    println!(\"cargo:rustc-check-cfg=cfg(ax_verif)\");\n}\n")
+    shutil.copyfile(os.path.join(X.REPO, "Cargo.lock"), os.path.join(dst, "Cargo.lock"))
+    return extracted
+
+
+# ------------------------------------------------------------------------------------------------ stack-frame crate (C17)
+STK_HARNESSES = [
+    # (name, call, unwind): concrete list lengths and string lengths per harness (9 = symbolic length 0..2)
+    ("stk_start_a0_e0", "check_start(0, 0, [0, 0, 0], 1 << 48)", 10),
+    ("stk_start_a1_e0_l9", "check_start(1, 0, [9, 0, 0], 0xfff)", 10),
+    ("stk_start_a1_e1_l20", "check_start(1, 1, [2, 0, 0], 0xfff)", 10),
+    ("stk_start_a2_e0_l12", "check_start(2, 0, [1, 2, 0], 0xfff)", 10),
+    ("stk_start_a2_e1_l012", "check_start(2, 1, [0, 1, 2], 0xfff)", 10),
+    ("stk_plain", "check_plain()", 10),
+]
+STK_METHODS = ("init_stack", "init_stack_program_start", "init_stack_program_start_impl")
+
+
+def stk_texts():
+    out = {}
+    mac = X.whole_file("src/helpers/macros.rs")
+    out["helpers/macros.rs"] = ("src/helpers/macros.rs", X.select_items(mac, lambda h: re.match(r"\s*(macro_rules!|pub\(crate\) use|pub\(crate\) const)", h.strip()) is not None))
+    reg = X.whole_file("src/state/registers.rs")
+
+    def keep(h):
+        h1 = h.strip()
+        return (h1.startswith("use iced_x86") or "enum SupportedRegister" in h1 or h1.startswith("impl From<")
+                or re.match(r"impl SupportedRegister\b", h1) is not None)
+    out["state/registers.rs"] = ("src/state/registers.rs", X.select_items(reg, keep))
+    mem = X.whole_file("src/state/memory.rs")
+    # only the stack initialisers are real text here; everything they call is a contract of the model Axecutor
+    mem = X.select_methods(mem, lambda n: n in STK_METHODS,
+                           lambda h: h.strip().startswith("use ") or re.match(r"\s*(///[^\n]*\n\s*)*pub const PROT_", h) is not None)
+    out["state/memory.rs"] = ("src/state/memory.rs", mem)
+    return out
+
+
+def plan_stk():
+    return [dict(name=n, decl="#[kani::proof]\n#[kani::unwind(%d)]\nfn %s() {\n    crate::harness::stk::%s\n}\n" % (u, n, c), fns=list(STK_METHODS))
+            for (n, c, u) in STK_HARNESSES]
+
+
+def stk_hash():
+    parts = [t for (_r, t) in stk_texts().values()]
+    for rel in ["model/errors.rs", "model/debug.rs", "model/verif_hooks.rs", "model/stk/axecutor.rs", "harness/stk.rs"]:
+        parts.append(open(os.path.join(KANI, rel)).read())
+    parts.append(CRATE_LAYOUT_VERSION)
+    return X.sha(*parts)
+
+
+def build_stk(dst, harnesses):
+    if os.path.exists(dst):
+        shutil.rmtree(dst)
+    src = os.path.join(dst, "src")
+    extracted = {}
+    for rel_dst, (rel_repo, t) in stk_texts().items():
+        write(os.path.join(src, rel_dst), t)
+        extracted[rel_dst] = dict(repo=rel_repo, sha256=X.sha(t), lines=t.count("\n") + 1)
+    for a, b in [("model/errors.rs", "helpers/errors.rs"), ("model/debug.rs", "helpers/debug.rs"), ("model/verif_hooks.rs", "verif_hooks.rs"),
+                 ("model/stk/axecutor.rs", "axecutor.rs"), ("harness/stk.rs", "harness/stk.rs")]:
+        copy(os.path.join(KANI, a), os.path.join(src, b))
+    write(os.path.join(src, "harness/gen_stk.rs"), "".join(h["decl"] for h in harnesses))
+    lib = ["#![allow(warnings)]\n", FORMAT_SHADOW,
+           "pub mod verif_hooks;\n",
+           "pub mod helpers { pub mod debug; pub mod errors; pub mod macros; }\n",
+           "pub mod state { pub mod registers; pub mod memory; }\n",
+           "pub mod axecutor;\n",
+           "pub mod harness { pub mod stk; #[cfg(kani)] pub mod gen_stk; }\n"]
+    write(os.path.join(src, "lib.rs"), "".join(lib))
+    write(os.path.join(dst, "Cargo.toml"), CARGO_TOML.format(name="axstk"))
+    write(os.path.join(dst, ".cargo/config.toml"), "[net]\noffline = true\n")
+    write(os.path.join(dst, "build.rs"), "fn main() {\n    println!(\"cargo:rustc-cfg=ax_verif\");\n    println!(\"cargo:rustc-check-cfg=cfg(ax_verif)\");\n}\n")
+    shutil.copyfile(os.path.join(X.REPO, "Cargo.lock"), os.path.join(dst, "Cargo.lock"))
+    return extracted
